@@ -131,8 +131,10 @@ func (m *OddPrimeFactors) ModExpI(out, base *numct.Nat, exp *numct.Int) {
 
 // ModDiv computes out = (a / b) mod n.
 func (m *OddPrimeFactors) ModDiv(out, a, b *numct.Nat) ct.Bool {
-	ok := m.ModInv(out, b)
-	m.ModMul(out, a, out)
+	// out may alias a: keep the inverse of b in a local until a has been read.
+	var bInv numct.Nat
+	ok := m.ModInv(&bInv, b)
+	m.ModMul(out, a, &bInv)
 	return ok
 }
 
